@@ -15,6 +15,7 @@ RULE = (
     "the same number of entries; project.time == the common length; entries at inserted indices show no WORKING "
     "task/worker/facility, zero cost at every level and the remaining work of the preceding entry (initial "
     "remaining work at index 0); on an absence-free result insert(L) followed by remove() restores the previous "
+    'Insert lists are passed in the generated order, not ascending. '
     "dump exactly. Non-trivial = a history with an insert that actually adds entries strictly inside the run and "
     "a later remove; distinct by case hash."
 )
@@ -151,9 +152,15 @@ def check(case):
                 res.fail("C18.remove_grew", "%s: logs grew from %d to %d" % (where, n, n2))
             n = n2
         else:
-            L = sorted(x % (n + 6) for x in op[1])
-            if op[0] != "insert_dup":
-                L = sorted(set(L))
+            # the list is passed in the order it was generated (not ascending); every level is documented to insert
+            # in ascending order, which is what the bookkeeping below assumes
+            Lc = []
+            for x in op[1]:
+                y = x % (n + 6)
+                if op[0] == "insert_dup" or y not in Lc:
+                    Lc.append(y)
+            L = sorted(Lc)
+            res.cls("insert_list_not_ascending", Lc != L)
             res.cls("insert_list_with_repeated_step", len(set(L)) != len(L))
             res.cls("insert_step0", 0 in L)
             res.cls("insert_beyond_end", any(x >= n for x in L))
@@ -161,7 +168,7 @@ def check(case):
             absence_free = not absence_now
             before = S.dump(p) if absence_free else None
             try:
-                p.insert_absence_time_list(list(L))
+                p.insert_absence_time_list(list(Lc))
             except Exception as e:  # noqa: BLE001
                 res.fail("C18.exception", "insert_absence_time_list(%s) raised %s: %s (%d steps)" % (L, type(e).__name__, e, n), sig="insert_" + type(e).__name__)
                 return res
